@@ -90,11 +90,27 @@ fn rewrite_statics(s: &str, notes: &mut Vec<String>) -> String {
             }
             Some(i) => {
                 out.push_str(&rest[..i]);
-                let semi = match rest[i..].find(';') {
-                    Some(k) => k + i,
-                    None => {
-                        out.push_str(&rest[i..]);
-                        return out;
+                // the `;` that ends the item: not one inside brackets (array types `[T; N]`, array values)
+                let semi = {
+                    let mut depth = 0i32;
+                    let mut found = None;
+                    for (k, ch) in rest[i..].char_indices() {
+                        match ch {
+                            '[' | '(' | '{' => depth += 1,
+                            ']' | ')' | '}' => depth -= 1,
+                            ';' if depth == 0 => {
+                                found = Some(k + i);
+                                break;
+                            }
+                            _ => {}
+                        }
+                    }
+                    match found {
+                        Some(k) => k,
+                        None => {
+                            out.push_str(&rest[i..]);
+                            return out;
+                        }
                     }
                 };
                 let decl = &rest[i..semi]; // "static NAME: T = EXPR" possibly preceded by pub
